@@ -210,3 +210,33 @@ def coll_values():
         vals.append(set(s))
     vals += [[None], [None, 1], [[1], [2]], [[], [1]], [1.5, 2.5]]
     return vals
+
+
+# ---------------------------------------------------------------- print-alike constants
+
+def printalike_atoms(sort):
+    """Atoms over 9, 10 ('num') or over "9", "10" ('str'): the constants PRINT the same and are ordered differently
+    ("10" < "9").  Anything keyed on the printed form of a predicate (a cache keyed by repr) confuses the two sorts."""
+    from . import lift
+
+    cs = ["18", "20"] if sort == "num" else [str(lift.STR_BASE + lift.STR_POOL.index("9")), str(lift.STR_BASE + lift.STR_POOL.index("10"))]
+    out = []
+    for k in ("eq", "ne", "ge", "gt", "le", "lt"):
+        out += [(k, c) for c in cs]
+    for k in ("gele", "gtlt"):
+        out += [(k, cs[0], cs[1]), (k, cs[1], cs[0])]
+    out += [("in", cs[0]), ("in", cs[0], cs[1]), ("notin", cs[1]), ("notin", cs[0], cs[1])]
+    return out
+
+
+def printalike_trees():
+    """Interleaved: each shape first over the numbers, then over the strings that print the same."""
+    num, st = printalike_atoms("num"), printalike_atoms("str")
+    out = []
+    for i in range(len(num)):
+        for j in range(len(num)):
+            for op in ("and", "or", "xor"):
+                for mk in (lambda a, b: (op, a, b), lambda a, b: (op, ("not", a), b), lambda a, b: ("not", (op, a, b))):
+                    out.append(mk(num[i], num[j]))
+                    out.append(mk(st[i], st[j]))
+    return out
